@@ -82,7 +82,7 @@ func save(s *sut.Server) bool {
 	select {
 	case <-done:
 		return true
-	case <-time.After(20 * time.Second):
+	case <-time.After(sut.Patience(20 * time.Second)):
 		return false
 	}
 }
